@@ -275,4 +275,67 @@ theorem modeSum_wf (ms : List Mode) (hne : ms ≠ []) (hnn : ∀ m ∈ ms, NonNe
       refine ⟨⟨some a, sum (alignLoop a b (m0 :: ms0))⟩, ?_, sum_wf _ i1⟩
       simp only [modeSum, hpair]
 
+/-! ### argument order -/
+
+theorem rawEdges_perm {a b : List (List Seg)} (h : a.Perm b) : (rawEdges a).Perm (rawEdges b) := by
+  induction h with
+  | nil => exact List.Perm.refl _
+  | cons x _ ih => simp only [rawEdges]; exact List.Perm.append_left _ ih
+  | swap x y l =>
+    simp only [rawEdges]
+    rw [← List.append_assoc, ← List.append_assoc]
+    exact List.Perm.append_right _ List.perm_append_comm
+  | trans _ _ ih1 ih2 => exact ih1.trans ih2
+
+theorem anyInfinite_perm {a b : List (List Seg)} (h : a.Perm b) : anyInfinite a = anyInfinite b := by
+  unfold anyInfinite
+  induction h with
+  | nil => rfl
+  | cons x _ ih => simp only [List.any_cons, ih]
+  | swap x y l => simp only [List.any_cons]; rw [← Bool.or_assoc, ← Bool.or_assoc, Bool.or_comm (duration x).2]
+  | trans _ _ ih1 ih2 => rw [ih1, ih2]
+
+theorem alignLoop_eq_map (e l : Int) (ms : List Mode) :
+    alignLoop e l ms = ms.map (fun m => shift (m.start.getD l - e) m.segs) := by
+  induction ms with
+  | nil => rfl
+  | cons m ms ih => simp only [alignLoop, List.map_cons, ih]
+
+theorem starts_perm {a b : List Mode} (h : a.Perm b) : (starts a).Perm (starts b) := by
+  unfold starts; exact h.filterMap _
+
+theorem startsLoop_perm {a b : List Mode} (h : a.Perm b) :
+    startsLoop none none a = startsLoop none none b := by
+  have sa := startsLoop_spec a none none (Or.inl ⟨rfl, rfl⟩)
+  have sb := startsLoop_spec b none none (Or.inl ⟨rfl, rfl⟩)
+  simp only [] at sa sb
+  have hp := starts_perm h
+  rcases sa with ⟨a1, a2, _, as⟩ | ⟨x, y, a1, a2, _, ax, ay, aall, _, _⟩
+  · rcases sb with ⟨b1, b2, _, _⟩ | ⟨x', y', _, _, _, bx, _, _, _, _⟩
+    · exact Prod.ext (a1.trans b1.symm) (a2.trans b2.symm)
+    · exfalso
+      rcases bx with bx | bx
+      · have := hp.symm.subset bx; rw [as] at this; cases this
+      · cases bx
+  · rcases sb with ⟨_, _, _, bs⟩ | ⟨x', y', b1, b2, _, bx, by', ball, _, _⟩
+    · exfalso
+      rcases ax with ax | ax
+      · have := hp.subset ax; rw [bs] at this; cases this
+      · cases ax
+    · have hx : x ∈ starts a := by rcases ax with h | h; exact h; cases h
+      have hy : y ∈ starts a := by rcases ay with h | h; exact h; cases h
+      have hx' : x' ∈ starts b := by rcases bx with h | h; exact h; cases h
+      have hy' : y' ∈ starts b := by rcases by' with h | h; exact h; cases h
+      have e1 : x = x' := by
+        have := (aall x' (hp.symm.subset hx')).1
+        have := (ball x (hp.subset hx)).1
+        omega
+      have e2 : y = y' := by
+        have := (aall y' (hp.symm.subset hy')).2
+        have := (ball y (hp.subset hy)).2
+        omega
+      refine Prod.ext ?_ ?_
+      · rw [a1, b1, e1]
+      · rw [a2, b2, e2]
+
 end ScVerif.C18
